@@ -1,24 +1,29 @@
 /-
 Model of `pkg/packet/writer.go` (one `Writer`) together with the `Reader`s linked to it
-(`pkg/packet/reader.go`) and `packet.Join` (`pkg/packet/packet.go`), after the three `fix:`
+(`pkg/packet/reader.go`) and `packet.Join` (`pkg/packet/packet.go`), after the four `fix:`
 commits of C01 (late-link guards in `indexOfHead`/`Unlink`, no emission from a `Write` that
-returns 0, `receive` flushes every complete row).
+returns 0, `receive` flushes every complete row, link generations).
 
 Data layout is the Go one: `readers` is `Writer.readers` (link order), `rows` is
 `Writer.receives` – row j is the response row of the j-th pending write, *index addressed*:
 column i belongs to `readers[i]`; a row written before a late `Link` is shorter than `readers`.
 A cell is `none` for Go's `nil` (answer still owed) and `some a` once filled.
 
-Per reader only what the writer can see is kept: `pend r = len(r.writers)` (its FIFO holds only
-this writer), `closed r = r.done`, and `drops r` = number of goroutines `go w.receive(dropped, r)`
-spawned by `Reader.Close` that have not run yet (all carry the same packet and reader, so they
-are indistinguishable and a count suffices).  Every step is one critical section:
+Every successful `Link` gives the link a fresh generation (`Writer.linked` counts them,
+`Writer.links[i]` is the generation of `readers[i]`'s link).  Per reader only what the writer can
+see is kept: `pend r` = `r.writers` (its FIFO holds only this writer: the link generation recorded
+with each request), `closed r = r.done`, and `drops r` = the goroutines
+`go w.receive(dropped, r, link)` spawned by `Reader.Close` that have not run yet (all carry the
+same packet and reader; they differ only in the generation).  `deliverDrop r` runs the oldest of
+them: notices of one generation are indistinguishable, and a notice of an older generation than
+the reader's current link is a no-op in every state (`C01.stale_response_ignored`), so where it is
+placed in a schedule cannot be observed.  Every step is one critical section:
 
     link r        (*Writer).Link            unlink r     (*Writer).Unlink
     write v       (*Writer).Write (+ every (*Reader).write it calls)
-    answer r a    (*Reader).Receive(a) = pop under r.mu, then (*Writer).receive(a, r)
-    closeR r      (*Reader).Close (marks closed, spawns `pend r` drop goroutines)
-    deliverDrop r one spawned goroutine runs (*Writer).receive(dropped, r)
+    answer r a    (*Reader).Receive(a) = pop under r.mu, then (*Writer).receive(a, r, link)
+    closeR r      (*Reader).Close (marks closed, spawns one drop goroutine per request)
+    deliverDrop r one spawned goroutine runs (*Writer).receive(dropped, r, link)
     closeW        (*Writer).Close
 
 Identities (`*Reader`) are harness-assigned naturals.  Payloads are opaque naturals: `Join` never
@@ -133,11 +138,19 @@ def setCell (rows : List Row) (head index : Nat) (a : Ans) : Option (List Row) :
 
 structure W where
   readers : List RId := []
+  /-- `Writer.links`: `links[i]` is the generation of the link of `readers[i]`. -/
+  links : List Nat := []
+  /-- `Writer.linked`: number of successful `Link`s so far (the last generation handed out). -/
+  linked : Nat := 0
   rows : List Row := []
   done : Bool := false
-  pend : RId → Nat := fun _ => 0
+  /-- `Reader.writers` (requests of this writer): the link generation recorded with each request
+  the reader still has to answer, oldest first. -/
+  pend : RId → List Nat := fun _ => []
   closed : RId → Bool := fun _ => false
-  drops : RId → Nat := fun _ => 0
+  /-- The goroutines `go req.writer.receive(dropped, r, req.link)` spawned by `Reader.Close` that
+  have not run yet: the generation each carries, in the order of the requests. -/
+  drops : RId → List Nat := fun _ => []
 
 def W.init : W := {}
 
@@ -169,22 +182,30 @@ structure Out where
   deliv : List (RId × Nat) := []
   deriving DecidableEq, Repr
 
-/-- `(*Writer).receive(pck, reader)`. -/
-def receive (m : W) (a : Ans) (r : RId) : W × Out :=
+/-- `(*Writer).receive(pck, reader, link)`.  `chk = true` is the code; `chk = false` is the code
+before the link-generation fix (the comparison `w.links[index] != link` did not exist), kept for
+`C01.pinned_relink_miscredit`. -/
+def receiveWith (chk : Bool) (m : W) (a : Ans) (r : RId) (link : Nat) : W × Out :=
   if m.done then (m, { ret := .ok false }) else
   match indexOf r m.readers with
   | none => (m, { ret := .ok false })
   | some index =>
-    match indexOfHead index m.rows with
-    | .panic => (m, { ret := .panic 1 })
-    | .notFound => (m, { ret := .ok false })
-    | .found head =>
-      match setCell m.rows head index a with
-      | none => (m, { ret := .panic 2 })
-      | some rows =>
-        if head = 0 then
-          ({ m with rows := (flush false rows).1 }, { ret := .ok true, emits := (flush false rows).2 })
-        else ({ m with rows := rows }, { ret := .ok true })
+    match m.links[index]? with
+    | none => (m, { ret := .panic 3 })                     -- w.links[index] out of range
+    | some l =>
+      if chk && l != link then (m, { ret := .ok false }) else
+      match indexOfHead index m.rows with
+      | .panic => (m, { ret := .panic 1 })
+      | .notFound => (m, { ret := .ok false })
+      | .found head =>
+        match setCell m.rows head index a with
+        | none => (m, { ret := .panic 2 })
+        | some rows =>
+          if head = 0 then
+            ({ m with rows := (flush false rows).1 }, { ret := .ok true, emits := (flush false rows).2 })
+          else ({ m with rows := rows }, { ret := .ok true })
+
+abbrev receive (m : W) (a : Ans) (r : RId) (link : Nat) : W × Out := receiveWith true m a r link
 
 /-- Column deletion of `Unlink` (with the guard of the fix). -/
 def eraseCol (i : Nat) (rows : List Row) : List Row :=
@@ -197,47 +218,65 @@ def newRow (closed : RId → Bool) (readers : List RId) : Row :=
 def accepting (closed : RId → Bool) (readers : List RId) : List RId :=
   readers.filter fun r => !closed r
 
-def step (m : W) : Step → W × Out
+/-- `w.links[i]` for the column of reader `r` (`none`: not linked, or index out of range). -/
+def linkOf (m : W) (r : RId) : Option Nat :=
+  match indexOf r m.readers with
+  | none => none
+  | some i => m.links[i]?
+
+def stepWith (chk : Bool) (m : W) : Step → W × Out
   | .link r =>
     if m.done then (m, { ret := .ok false })
     else if r ∈ m.readers then (m, { ret := .ok false })
-    else ({ m with readers := m.readers ++ [r] }, { ret := .ok true })
+    else ({ m with linked := m.linked + 1, readers := m.readers ++ [r], links := m.links ++ [m.linked + 1] },
+          { ret := .ok true })
   | .unlink r =>
     if m.done then (m, { ret := .ok false }) else
     match indexOf r m.readers with
     | none => (m, { ret := .ok false })
     | some i =>
+      if m.links.length ≤ i then (m, { ret := .panic 4 })    -- w.links[i+1:] out of range
+      else
       let rows := eraseCol i m.rows
-      ({ m with readers := m.readers.eraseIdx i, rows := (flush true rows).1 },
+      ({ m with readers := m.readers.eraseIdx i, links := m.links.eraseIdx i, rows := (flush true rows).1 },
        { ret := .ok true, emits := (flush true rows).2 })
   | .write v =>
     if m.done then (m, { ret := .cnt 0 })
     else if m.readers.isEmpty then (m, { ret := .cnt 0 })
+    else if m.links.length < m.readers.length then (m, { ret := .panic 5 })   -- w.links[i] out of range
     else
       let acc := accepting m.closed m.readers
-      let m' := { m with pend := fun r => if r ∈ acc then m.pend r + 1 else m.pend r }
+      let m' := { m with pend := fun r => if r ∈ acc then m.pend r ++ (linkOf m r).toList else m.pend r }
       if acc.length > 0 then
         ({ m' with rows := m.rows ++ [newRow m.closed m.readers] },
          { ret := .cnt acc.length, deliv := acc.map fun r => (r, v) })
       else (m', { ret := .cnt 0 })
   | .answer r a =>
-    if m.pend r = 0 then (m, { ret := .ok false })
-    else receive { m with pend := fun x => if x = r then m.pend r - 1 else m.pend x } a r
+    match m.pend r with
+    | [] => (m, { ret := .ok false })
+    | g :: rest => receiveWith chk { m with pend := fun x => if x = r then rest else m.pend x } a r g
   | .closeR r =>
     if m.closed r then (m, { ret := .cnt 0 })
     else ({ m with closed := fun x => if x = r then true else m.closed x,
                    drops := fun x => if x = r then m.pend r else m.drops x,
-                   pend := fun x => if x = r then 0 else m.pend x },
-          { ret := .cnt (m.pend r) })
+                   pend := fun x => if x = r then [] else m.pend x },
+          { ret := .cnt (m.pend r).length })
   | .deliverDrop r =>
-    if m.drops r = 0 then (m, { ret := .skip })
-    else
-      let p := receive { m with drops := fun x => if x = r then m.drops r - 1 else m.drops x } Ans.dropped r
+    match m.drops r with
+    | [] => (m, { ret := .skip })
+    | g :: rest =>
+      let p := receiveWith chk { m with drops := fun x => if x = r then rest else m.drops x } Ans.dropped r g
       (p.1, { p.2 with ret := match p.2.ret with | .panic s => .panic s | _ => .unit })
   | .closeW =>
     if m.done then (m, { ret := .unit })
-    else ({ m with done := true, readers := [], rows := [] },
+    else ({ m with done := true, readers := [], links := [], rows := [] },
           { ret := .unit, emits := m.rows.map fun _ => Resp.dropped })
+
+/-- One step of the code. -/
+def step (m : W) (s : Step) : W × Out := stepWith true m s
+
+/-- One step of the code as it was before the link-generation fix. -/
+def stepPinned (m : W) (s : Step) : W × Out := stepWith false m s
 
 /-- Run a history from a state, collecting what every step shows. -/
 def runFrom (m : W) : List Step → W × List Out
@@ -246,10 +285,16 @@ def runFrom (m : W) : List Step → W × List Out
 
 def run (h : List Step) : W × List Out := runFrom W.init h
 
-/-- Class predicate of the known finding `relink-with-pending`: the step links a reader that is
-not linked, is still open and still has unanswered requests (`len(r.writers) > 0`). -/
+def runFromPinned (m : W) : List Step → W × List Out
+  | [] => (m, [])
+  | s :: h => ((runFromPinned (stepPinned m s).1 h).1, (stepPinned m s).2 :: (runFromPinned (stepPinned m s).1 h).2)
+
+/-- Class predicate of the former known finding `relink-with-pending` (fixed by the link
+generations; kept because the witness of the defect and C03's liveness theorem are stated with
+it): the step links a reader that is not linked, is still open and still has unanswered requests
+(`len(r.writers) > 0`). -/
 def relinkPending (m : W) : Step → Bool
-  | .link r => !m.done && !decide (r ∈ m.readers) && decide (0 < m.pend r)
+  | .link r => !m.done && !decide (r ∈ m.readers) && decide (0 < (m.pend r).length)
   | _ => false
 
 /-- The history, run from `m`, never re-links a reader that still has unanswered requests. -/
